@@ -112,6 +112,8 @@ type VC struct {
 	usedTrusted map[string]bool
 	usedLib     map[string]bool
 	addrOnly    map[ssa.Value]bool
+	escBefore   map[ssa.Instruction][]*ssa.Alloc
+	escAtEnd    map[int][]*ssa.Alloc
 	deferred    []*ssa.Defer
 	params      map[string]ssa.Value
 	retNames    []string
@@ -510,6 +512,9 @@ func (vc *VC) typeFacts(term Term, t types.Type) Term {
 		si := vc.e.structs[s]
 		for i, f := range si.fields {
 			fs = append(fs, vc.typeFacts(sx(si.accs[i], term), f.Type()))
+			if canBeNil(f.Type()) && vc.e.cs.NonNilField[vc.nonNilKeyField(t, i)] {
+				fs = append(fs, Not(vc.isNil(sx(si.accs[i], term), f.Type())))
+			}
 		}
 	}
 	return And(fs...)
